@@ -11,6 +11,8 @@ CONSTANTS
   TimerOn = FALSE
   WithFail = TRUE
   MaxOps = 4
+  Muts = {"same"}
   ResetOnError = TRUE
   AddBeforeChecks = TRUE
   RemoveWhole = TRUE
+  MeasureOnArrival = TRUE
